@@ -47,34 +47,41 @@ fn crash_context_for_a_secondary_thread() {
     assert_eq!(plain_exc.exception_record.exception_address, reg(live, RIP), "its current instruction pointer");
     let sp = reg(live, RSP);
 
-    let mut inner: crash_context::CrashContext = unsafe { std::mem::zeroed() };
-    inner.context.uc_mcontext.gregs[libc::REG_RBX as usize] = 0x2222_3333_4444_5555;
-    inner.context.uc_mcontext.gregs[libc::REG_RSP as usize] = sp as i64;
-    inner.context.uc_mcontext.gregs[libc::REG_RIP as usize] = 0x1000;
-    inner.siginfo.ssi_signo = libc::SIGSEGV as u32;
-    inner.siginfo.ssi_code = 2;
-    inner.siginfo.ssi_addr = 0xdead_beef;
-    inner.pid = pid;
-    inner.tid = blamed;
-    let mut w = MinidumpWriter::new(pid, blamed);
-    w.set_crash_context(CrashContext { inner });
-    let bytes = w.dump(&mut std::io::Cursor::new(Vec::new())).expect("dump with crash context");
+    // the thread id stored INSIDE the crash context is not what selects the thread: the blamed thread given to the
+    // writer is (the context's own tid equal to it, left zero, or naming another live thread)
+    let mut bad = Vec::new();
+    for ctx_tid in [blamed, 0, pid] {
+        let mut inner: crash_context::CrashContext = unsafe { std::mem::zeroed() };
+        inner.context.uc_mcontext.gregs[libc::REG_RBX as usize] = 0x2222_3333_4444_5555;
+        inner.context.uc_mcontext.gregs[libc::REG_RSP as usize] = sp as i64;
+        inner.context.uc_mcontext.gregs[libc::REG_RIP as usize] = 0x1000;
+        inner.siginfo.ssi_signo = libc::SIGSEGV as u32;
+        inner.siginfo.ssi_code = 2;
+        inner.siginfo.ssi_addr = 0xdead_beef;
+        inner.pid = pid;
+        inner.tid = ctx_tid;
+        let mut w = MinidumpWriter::new(pid, blamed);
+        w.set_crash_context(CrashContext { inner });
+        let bytes = w.dump(&mut std::io::Cursor::new(Vec::new())).expect("dump with crash context");
+
+        let dump = Minidump::read(bytes.as_slice()).unwrap();
+        let exc: MinidumpException = dump.get_stream().unwrap();
+        let list: MinidumpThreadList = dump.get_stream().unwrap();
+        let mut check = |ok: bool, what: String| if !ok { bad.push(format!("context tid {ctx_tid}, blamed {blamed}: {what}")); };
+        check(exc.raw.exception_record.exception_code == libc::SIGSEGV as u32, "signal number".into());
+        check(exc.raw.exception_record.exception_flags == 2, "signal code".into());
+        check(exc.raw.exception_record.exception_address == 0xdead_beef, "fault address".into());
+        check(exc.raw.thread_id == blamed as u32, "the record names the blamed thread".into());
+        let t = list.get_thread(blamed as u32).expect("blamed thread listed");
+        check(exc.raw.thread_context.rva == t.raw.thread_context.rva, "the blamed thread's entry uses the exception's context blob".into());
+        check(reg(ctx_bytes(&bytes, exc.raw.thread_context), RBX) == 0x2222_3333_4444_5555, "the exception context holds the supplied registers".into());
+        for other in list.threads.iter().filter(|o| o.raw.thread_id != blamed as u32) {
+            check(other.raw.thread_context.rva != exc.raw.thread_context.rva, format!("thread {} shares the exception's context", other.raw.thread_id));
+            check(reg(ctx_bytes(&bytes, other.raw.thread_context), RBX) != 0x2222_3333_4444_5555,
+                  format!("thread {} was given the crash context of thread {blamed}", other.raw.thread_id));
+        }
+    }
     child.kill().expect("Failed to kill process");
     child.wait().expect("Failed to wait on killed process");
-
-    let dump = Minidump::read(bytes.as_slice()).unwrap();
-    let exc: MinidumpException = dump.get_stream().unwrap();
-    let list: MinidumpThreadList = dump.get_stream().unwrap();
-    assert_eq!(exc.raw.exception_record.exception_code, libc::SIGSEGV as u32);
-    assert_eq!(exc.raw.exception_record.exception_flags, 2);
-    assert_eq!(exc.raw.exception_record.exception_address, 0xdead_beef);
-    assert_eq!(exc.raw.thread_id, blamed as u32, "names the blamed thread");
-    let t = list.get_thread(blamed as u32).expect("blamed thread listed");
-    assert_eq!(exc.raw.thread_context.rva, t.raw.thread_context.rva, "the blamed thread's entry uses the same context");
-    assert_eq!(reg(ctx_bytes(&bytes, exc.raw.thread_context), RBX), 0x2222_3333_4444_5555, "the supplied registers");
-    for other in list.threads.iter().filter(|o| o.raw.thread_id != blamed as u32) {
-        assert_ne!(other.raw.thread_context.rva, exc.raw.thread_context.rva);
-        assert_ne!(reg(ctx_bytes(&bytes, other.raw.thread_context), RBX), 0x2222_3333_4444_5555,
-                   "thread {} was given the crash context of thread {blamed}", other.raw.thread_id);
-    }
+    assert!(bad.is_empty(), "{}", bad.join("\n"));
 }
